@@ -13,7 +13,7 @@ Spellings == {SpellingSeq[i] : i \in 1..Len(SpellingSeq)}
 
 Norm(sp) == Canon(<<>>, sp.abs, sp.segs)          \* path.Join("/", spelling)
 Absent   == "ABSENT"
-Contents == {"c1", "c2"}
+Contents == {"c1", ""}        \* an entry may be empty: it exists all the same
 
 VARIABLES mem, muts
 vars == <<mem, muts>>
